@@ -176,8 +176,8 @@ Fixpoint render_parts (b : backend) (ps : list rt) : res str :=
 (* ---- whole documents: BaseBackend.write_to_stream (backends/__init__.py:103-111) ---- *)
 Record fentry := mkEntry { e_key : str; e_label : str; e_width : Z; e_text : rt }.
 
-(* style/labels/__init__.py:29 get_longest_label: max(labels, key=width): the FIRST label of
-   maximal width; ValueError (a foreign exception) for no entries.  width() (textutils) is
+(* style/labels/__init__.py:29 get_longest_label: max(labels, key=width, default=''): the FIRST
+   label of maximal width; the empty string for no entries.  width() (textutils) is
    outside the anchored code: each label's measured width is part of the input. *)
 Fixpoint max_label (best : str) (bw : Z) (es : list fentry) : str :=
   match es with
@@ -186,7 +186,7 @@ Fixpoint max_label (best : str) (bw : Z) (es : list fentry) : str :=
   end.
 Definition longest_label (es : list fentry) : res str :=
   match es with
-  | [] => Crash
+  | [] => Ok []
   | e :: r => Ok (max_label (e_label e) (e_width e) r)
   end.
 
